@@ -132,11 +132,13 @@ func genHist(g *G, n int, out io.Writer) {
 		}
 		// near-identical documents: the first graph again with white space put INTO one of its string values, with a number respelt,
 		// with its top-level nodes in the opposite order - documents that differ, however little, are different documents
+		var nearCopies [][2]string
 		for _, d := range pool[:1] {
 			for _, v := range []string{strings.Replace(d, `"cc"`, `"c c"`, 1), strings.Replace(d, `"ddd"`, `"d\tdd"`, 1), strings.Replace(d, `"true"`, `" true"`, 1), strings.Replace(d, `:[1`, `:[10`, 1)} {
 				if v != d {
 					pool = append(pool, v, d)
 					kinds = append(kinds, "graph-near-copy", "graph")
+					nearCopies = append(nearCopies, [2]string{v, d})
 				}
 			}
 		}
@@ -202,6 +204,13 @@ func genHist(g *G, n int, out io.Writer) {
 			j := g.n(len(pool))
 			h.Docs = append(h.Docs, pool[j])
 			h.Kinds = append(h.Kinds, kinds[j])
+		}
+		if len(nearCopies) > 0 && i%6 != 1 {
+			// ... one right after the other, somewhere in the history (near copy first, then the original, then the near copy again)
+			nc := nearCopies[g.n(len(nearCopies))]
+			at := g.n(len(h.Docs) + 1)
+			h.Docs = append(h.Docs[:at], append([]string{nc[0], nc[1], nc[0]}, h.Docs[at:]...)...)
+			h.Kinds = append(h.Kinds[:at], append([]string{"graph-near-copy", "graph", "graph-near-copy"}, h.Kinds[at:]...)...)
 		}
 		if i%6 == 3 || i%6 == 1 && g.coin(0.5) {
 			// the caller's report configuration varies from call to call (configurations that agree in some fields)
